@@ -267,32 +267,44 @@ class Origins:
         return mk_phi(alts)
 
     def _mut_ref_target(self, l, tok, i, depth):
-        """If local l (at position tok,i) holds `&mut place`, return (base local, proj) of place."""
-        if depth > 6:
+        """If local l (at position tok,i) holds `&mut place`, return (base local, proj) of place.
+        The defining statement is searched backwards, through chains of single predecessors."""
+        if depth > 8:
             return None
         ty = self.body["locals"][l]["ty"]
         if not (isinstance(ty, dict) and "ref" in ty and ty.get("mut")):
             return None
         blocks = self.body["blocks"]
-        stmts = blocks[self._blk(tok)]["s"]
-        for j in range(min(i, len(stmts)) - 1, -1, -1):
-            s = stmts[j]
-            if s["k"] == "assign" and s["place"]["l"] == l and not s["place"]["p"]:
-                rv = s["rv"]
-                if rv["k"] == "ref" and rv.get("mut"):
-                    pl = rv["place"]
-                    pp = tuple(_pe(e) for e in pl["p"])
-                    if pp and pp[0] == "*":
-                        inner = self._mut_ref_target(pl["l"], tok, j, depth + 1)
-                        if inner is None:
-                            return None
-                        return (inner[0], inner[1] + pp[1:])
-                    return (pl["l"], pp)
-                if rv["k"] == "use":
-                    pl = rv["a"].get("move") or rv["a"].get("copy")
-                    if pl is not None and not pl["p"]:
-                        return self._mut_ref_target(pl["l"], tok, j, depth + 1)
+        hops = 0
+        while hops < 12:
+            stmts = blocks[self._blk(tok)]["s"]
+            for j in range(min(i, len(stmts)) - 1, -1, -1):
+                s = stmts[j]
+                if s["k"] == "assign" and s["place"]["l"] == l and not s["place"]["p"]:
+                    rv = s["rv"]
+                    if rv["k"] == "ref" and rv.get("mut"):
+                        pl = rv["place"]
+                        pp = tuple(_pe(e) for e in pl["p"])
+                        if pp and pp[0] == "*":
+                            inner = self._mut_ref_target(pl["l"], tok, j, depth + 1)
+                            if inner is None:
+                                return None
+                            return (inner[0], inner[1] + pp[1:])
+                        return (pl["l"], pp)
+                    if rv["k"] in ("use", "cast"):
+                        pl = rv["a"].get("move") or rv["a"].get("copy")
+                        if pl is not None and not pl["p"]:
+                            return self._mut_ref_target(pl["l"], tok, j, depth + 1)
+                    return None
+            preds = self._preds(tok)
+            if len(preds) != 1:
                 return None
+            pt = blocks[self._blk(preds[0])]["t"]
+            if pt["k"] == "call" and pt["dest"]["l"] == l:
+                return None
+            tok = preds[0]
+            i = len(blocks[self._blk(tok)]["s"])
+            hops += 1
         return None
 
     def _entry(self, local, proj):
